@@ -127,6 +127,37 @@ def check(ctx, rep):
     if set(bodies) != {'NotifyAt', 'NotifyAfter'}:
         rep.bad('R18.b', 'bodies', 'command-API task bodies not found: %s' % sorted(bodies))
         return
+    # ---- R18.f: when the shell's answer and the clear are both ready, the answer wins: the race is a *biased* select whose first
+    # arm polls the shell request (no pseudo-random start, request arm before the clear arm)
+    rep.rule('R18.f', 'the race between the shell\'s answer and the clear is biased: no random start, the request arm is polled first', floor=2)
+    for variant, (f, bb, s) in bodies.items():
+        nested = time.closures_of(f)
+        shuffles = [(g, b2) for g in [f] + nested for b2, t2 in g.calls() if norm(t2.get('callee') or '').startswith('futures_util::async_await::random::')]
+        orders = []
+        for g in [f] + nested:
+            for b2, i2, s2 in g.stmts('assign'):
+                rv = s2['rv']
+                if rv['k'] != 'agg' or not str(rv.get('ak', '')).startswith('array') or len(rv.get('ops') or []) < 2:
+                    continue
+                kinds = []
+                for op in rv['ops']:
+                    what = '?'
+                    for o in origins(g, op, through_casts=True):
+                        if o.kind == 'agg' and o.stmt['rv'].get('ak') == 'closure':
+                            arm = time.by_exact(o.stmt['rv']['def'])
+                            polled = ' '.join(' '.join(t3.get('targs') or []) for b3, t3 in (arm.calls() if arm else []) if 'poll' in last_seg(t3.get('callee') or ''))
+                            if 'context::ShellRequest' in polled:
+                                what = 'request'
+                            elif 'oneshot::Receiver' in polled:
+                                what = 'clear'
+                    kinds.append(what)
+                if 'request' in kinds or 'clear' in kinds:
+                    orders.append(kinds)
+        ok = not shuffles and bool(orders) and all(k[0] == 'request' and 'clear' in k[1:] for k in orders)
+        rep.expect('R18.f', ok, '%s|answer-beats-clear' % variant, 'select arms in order %s, no random start' % orders,
+                   'command %s task: the select between the shell\'s answer and the clear is not biased towards the answer (%s): with both ready, '
+                   'a timer that already fired can be reported Cleared and send a Clear request' % (
+                       variant, 'starts from a pseudo-random arm (select! instead of select_biased!)' if shuffles else 'arm order %s' % orders))
     seqs = {}
     for variant, (f, bb, s) in bodies.items():
         tries = [b2 for b2, t2 in f.calls('futures_channel::oneshot::Receiver::try_recv')]
